@@ -189,3 +189,44 @@ def run_all_native():
                 if not run_table_case(ci, ji, allow):
                     bad.append((CASES[ci][:4], JUNK[ji] if ji < NJ else "<deleted>", allow))
     return bad
+
+
+# ---- thorough: two simultaneous corruptions (the second from a fixed set of raw-scan-relevant sites)
+SECOND = [("extensions", {"x-a-ext": 5}), ("extensions", [1]), ("granular_markings", [{"selectors": 5}]), ("granular_markings", "x"),
+          ("custom_properties", {"a": 1}), ("custom_properties", 0), ("spec_version", 21), ("id", 5), ("object_marking_refs", {"a": 1}), ("created", [])]
+NSEC = len(SECOND)
+
+
+def table_junk_pairs(ci: int, k: int, allow: bool) -> bool:
+    """
+    pre: 0 <= ci < NCASE and ci % NPARTS == PARTNO and 0 <= k < NSEC
+    post: _
+    """
+    ci, k = pick(ci, NCASE), pick(k, NSEC)
+    allow = bool(allow)
+    with Native():
+        ok = run_pair_case(ci, k, allow)
+    V.reached()
+    return ok
+
+
+def run_pair_case(ci, k, allow):
+    ver, cat, name, path, base = CASES[ci]
+    p2, j2 = SECOND[k]
+    before = reg_snapshot()
+    for ji in range(NJ + 1):
+        doc = set_path(base, path, None, delete=True) if ji == NJ else set_path(base, path, JUNK[ji])
+        if not isinstance(doc, dict):
+            continue
+        doc = dict(doc)
+        doc[p2] = j2
+        try:
+            if cat == "observables":
+                stix2.parse_observable(doc, allow_custom=allow, version=ver)
+            else:
+                stix2.parse(doc, allow_custom=allow, version=ver)
+        except ALLOWED:
+            pass
+        except Exception:  # noqa: BLE001
+            return False
+    return reg_snapshot() == before
